@@ -34,8 +34,9 @@ func (P *projPoint) getXY() (x, y *mod.Int) {
 }
 
 func (P *projPoint) String() string {
-	P.normalize()
-	return P.c.pointString(&P.X, &P.Y)
+	Q := P.Clone().(*projPoint) //nolint:errcheck // read-only: normalise a copy, never the shared receiver
+	Q.normalize()
+	return P.c.pointString(&Q.X, &Q.Y)
 }
 
 func (P *projPoint) MarshalSize() int {
@@ -43,8 +44,9 @@ func (P *projPoint) MarshalSize() int {
 }
 
 func (P *projPoint) MarshalBinary() ([]byte, error) {
-	P.normalize()
-	return P.c.encodePoint(&P.X, &P.Y), nil
+	Q := P.Clone().(*projPoint) //nolint:errcheck // read-only: normalise a copy, never the shared receiver
+	Q.normalize()
+	return P.c.encodePoint(&Q.X, &Q.Y), nil
 }
 
 func (P *projPoint) UnmarshalBinary(b []byte) error {
@@ -125,8 +127,9 @@ func (P *projPoint) Pick(rand cipher.Stream) kyber.Point {
 
 // Extract embedded data from a point group element
 func (P *projPoint) Data() ([]byte, error) {
-	P.normalize()
-	return P.c.data(&P.X, &P.Y)
+	Q := P.Clone().(*projPoint) //nolint:errcheck // read-only: normalise a copy, never the shared receiver
+	Q.normalize()
+	return P.c.data(&Q.X, &Q.Y)
 }
 
 // Add two points using optimized projective coordinate addition formulas.
